@@ -697,8 +697,35 @@ def pair_coalescence_counts(spec, sets, indexes, windows, bins, nbins, span_norm
         if pair_normalise:
             out[:, c, :] = out[:, c, :] / tot if tot > 0 else 0.0
     if span_normalise:
+        # documented: "divide the result by the span of non-missing sequence in the window";
+        # missing sequence = trees without any edge.  A window with no non-missing sequence gives 0.
         for w in range(nw):
-            out[w] /= windows[w + 1] - windows[w]
+            eff = nonmissing_span(spec, windows[w], windows[w + 1])
+            out[w] = out[w] / eff if eff > 0 else 0.0
+    return out
+
+
+def nonmissing_span(spec, a, b):
+    """Length of [a, b) covered by trees that have at least one edge."""
+    tot = 0.0
+    for l, r, par in tree_intervals(spec):
+        if any(p >= 0 for p in par):
+            tot += max(0.0, overlap(l, r, a, b))
+    return tot
+
+
+def combine_refinement_nonmissing(spec, fine, fine_windows, coarse_windows):
+    """Refinement law for statistics normalised by non-missing span."""
+    fine = np.asarray(fine, dtype=float)
+    out = np.zeros((len(coarse_windows) - 1,) + fine.shape[1:])
+    for i in range(len(coarse_windows) - 1):
+        a, b = coarse_windows[i], coarse_windows[i + 1]
+        for k in range(len(fine_windows) - 1):
+            c, d = fine_windows[k], fine_windows[k + 1]
+            if a <= c and d <= b:
+                out[i] = out[i] + fine[k] * nonmissing_span(spec, c, d)
+        eff = nonmissing_span(spec, a, b)
+        out[i] = out[i] / eff if eff > 0 else 0.0
     return out
 
 
